@@ -189,6 +189,8 @@ def add_columns(fw: str, data: Any, new: Dict[str, List[int]]) -> Any:
     for i, row in enumerate(data):
         r = row if CUR.get("inplace") else dict(row)
         for c, v in new.items():
+            if i == 0 and CUR.get("sparse") and len(data) > 1:
+                continue          # python-dict rows need not share one schema: the new key is absent from the FIRST row
             r[c] = v[i] if i < len(v) else 0
         out.append(r)
     return out
@@ -309,6 +311,7 @@ def run_case(U: dict, C: dict, req: List[str], ordering: Optional[str], mode: st
     # a result table that aliases the object's data would then show columns computed later
     import zlib
     CUR["inplace"] = bool(zlib.crc32(json.dumps([req, ordering, mode]).encode()) & 1)
+    CUR["sparse"] = fw == "pydict" and mode != "MULTIPROCESSING" and bool(zlib.crc32(json.dumps([req, ordering, mode]).encode()) & 2)
     install()
     links = None
     if C.get("links") is not None:
@@ -320,7 +323,7 @@ def run_case(U: dict, C: dict, req: List[str], ordering: Optional[str], mode: st
         for name in C["filters"]:
             gf.add_filter(name, "min", {"value": -1000})
     REC.reset()
-    out: Dict[str, Any] = {"req": req, "ordering": ordering, "mode": mode, "inplace": CUR["inplace"]}
+    out: Dict[str, Any] = {"req": req, "ordering": ordering, "mode": mode, "inplace": CUR["inplace"], "sparse": CUR["sparse"]}
     kw: Dict[str, Any] = {}
     sink = None
     if mode != "SYNC":
